@@ -54,7 +54,7 @@ def _drel(xs, fit, dtype):
     return core.rat(float(np.float32(d)))
 
 
-def run_cube(pixels, nd, st, sp, api, dtype="int16", groups=None, dask=False):
+def run_cube(pixels, nd, st, sp, api, dtype="int16", groups=None, dask=False, ndmode="attr"):
     """pixels: list of series (same length). returns (outcome, outs per pixel or None)"""
     import pandas as pd
     import xarray as xr
@@ -71,10 +71,12 @@ def run_cube(pixels, nd, st, sp, api, dtype="int16", groups=None, dask=False):
             out = gammastd_grp(arr, g, 1, nd, np.array([[st, sp]], dtype="int16"))
         else:
             time = pd.date_range("2000-01-01", periods=T, freq="10D")
-            da = xr.DataArray(arr, dims=("y", "x", "time"), coords={"time": time}, attrs={"nodata": nd})
+            # how nodata reaches the accessor: attribute only / argument only / both and different (the argument wins)
+            attrs = {"attr": {"nodata": nd}, "arg": {}, "both": {"nodata": (0 if nd != 0 else -1)}}[ndmode]
+            da = xr.DataArray(arr, dims=("y", "x", "time"), coords={"time": time}, attrs=attrs)
             if dask:
                 da = da.chunk({"x": 1})
-            kw = {}
+            kw = {} if ndmode == "attr" else {"nodata": nd}
             if st > 0:
                 kw["calibration_begin"] = time[st]
             if sp < T:
@@ -86,8 +88,8 @@ def run_cube(pixels, nd, st, sp, api, dtype="int16", groups=None, dask=False):
         return f"raise:{type(ex).__name__}", None
 
 
-def cases_for(pixels, nd, st, sp, api, dtype, tag, checkvalue=True, dask=False):
-    outcome, outs = run_cube(pixels, nd, st, sp, api, dtype, dask=dask)
+def cases_for(pixels, nd, st, sp, api, dtype, tag, checkvalue=True, dask=False, ndmode="attr"):
+    outcome, outs = run_cube(pixels, nd, st, sp, api, dtype, dask=dask, ndmode=ndmode)
     res = []
     for pi, xs in enumerate(pixels):
         xs_t = [float(np.dtype(dtype).type(v)) for v in xs]   # the values as the kernel sees them
@@ -96,6 +98,6 @@ def cases_for(pixels, nd, st, sp, api, dtype, tag, checkvalue=True, dask=False):
             "x": [core.rat(v) for v in xs_t], "nd": core.rat(float(nd)), "ndi": int(nd), "st": st, "sp": sp,
             "outcome": outcome, "out": outs[pi] if outs else [], "fit": fit, "G": G, "S": S,
             "dlt": 0 if dtype != "float32" else 3, "drel": _drel(xs_t, fit, dtype), "checkvalue": bool(checkvalue and ok and _drel(xs_t, fit, dtype) != "big"),
-            "api": api, "dtype": dtype, "tag": tag, "xi": list(xs), "pix": pi, "npix": len(pixels),
+            "api": api, "dtype": dtype, "tag": tag, "ndmode": ndmode, "xi": list(xs), "pix": pi, "npix": len(pixels),
         })
     return res
